@@ -4,6 +4,7 @@ package main
 
 import (
 	"fmt"
+	"sort"
 	"go/constant"
 	"go/token"
 	"go/types"
@@ -863,6 +864,32 @@ func atomStrD(v ssa.Value, d int) string {
 			return "phi:" + x.Comment
 		}
 		return "phi"
+	case *ssa.Slice:
+		if arr, ok := x.X.(*ssa.Alloc); ok {
+			// varargs array: list what was stored into its elements
+			type ent struct {
+				i int64
+				s string
+			}
+			var ents []ent
+			if refs := arr.Referrers(); refs != nil {
+				for _, ref := range *refs {
+					if ia, ok := ref.(*ssa.IndexAddr); ok {
+						idx, _ := constInt(ia.Index)
+						for _, st := range storesTo(ia) {
+							ents = append(ents, ent{idx, atomStrD(st.Val, d+1)})
+						}
+					}
+				}
+			}
+			sort.Slice(ents, func(i, j int) bool { return ents[i].i < ents[j].i })
+			var ss []string
+			for _, e := range ents {
+				ss = append(ss, e.s)
+			}
+			return strings.Join(ss, ",")
+		}
+		return atomStrD(x.X, d+1) + "[:]"
 	}
 	return v.Name()
 }
